@@ -524,10 +524,17 @@ Proof.
   rewrite Forall_forall in HF. destruct (HF v Hin) as [->| ->]; reflexivity.
 Qed.
 
+Lemma corr_rt_ok c : corr_b c = true -> rt_ok c = true.
+Proof.
+  destruct c as [n evs obs fin fr]. cbn [corr_b rt_ok]. intros H. split_andb H.
+  apply andb_prop in H0. tauto.
+Qed.
+
 Theorem oracle_sound : forall c, wf_case c = true -> corr_b c = true ->
   prop_b c = true \/ known_b c = 1%N.
 Proof.
-  intros c Hwf Hcorr. right. unfold known_b. rewrite (verdicts_sound c Hwf Hcorr). reflexivity.
+  intros c Hwf Hcorr. right. unfold known_b.
+  rewrite (verdicts_sound c Hwf Hcorr), (corr_rt_ok c Hcorr). reflexivity.
 Qed.
 
 Theorem judge_sound : forall c, wf_case c = true -> corr_b c = true ->
@@ -535,5 +542,5 @@ Theorem judge_sound : forall c, wf_case c = true -> corr_b c = true ->
 Proof.
   intros c Hwf Hcorr. pose proof (verdicts_sound c Hwf Hcorr) as Hv.
   unfold judge. rewrite Hwf, Hcorr. cbn [negb andb]. rewrite andb_false_r.
-  unfold judge_code, known_b. rewrite Hv. destruct (prop_b c); [left|right]; reflexivity.
+  unfold judge_code, known_b. rewrite Hv, (corr_rt_ok c Hcorr). destruct (prop_b c); [left|right]; reflexivity.
 Qed.
